@@ -28,7 +28,8 @@ def run(ctx):
         (6, lambda: w_alg.drive_merge(ctx, ctx.tier)),
         # the same merges over parameters that carry defaults and annotations (conciliation of metadata must not
         # change which calls are accepted)
-        (2, lambda: w_alg.drive_merge(ctx, 'quick', pool=w_alg.MetaPool(ctx.rng('c01-meta')))),
+        (2, lambda: w_alg.drive_merge(ctx, 'quick', pool=w_alg.MetaPool(ctx.rng('c01-meta'), defaults=('1', '2', '3', 'ANYTHING', 'None'),
+                                                                           globs={'ANYTHING': w_alg.ANYTHING}))),
         (2, lambda: w_misc.drive_session(ctx, ctx.tier)),     # long-lived signature objects through many operations
         (2, lambda: w_misc.drive_merge_clients(ctx, ctx.tier))])
 
